@@ -365,6 +365,17 @@ impl Run {
                 }
             }
         }
+        // single-threaded cold starts: the process's first call is a chosen item, then all items in
+        // ascending and descending order (state that is laid out by, or depends on, the first inputs)
+        for prof in ["checked", "unchecked"] {
+            let bin = twin_binary(&self.root, prof);
+            if !bin.exists() {
+                continue;
+            }
+            for r in 0..(if prof == "checked" { 28usize } else { 10 }) {
+                jobs.push((prof, bin.clone(), 1000 + r));
+            }
+        }
         let batch: usize = std::env::var("VERIF_COLD_BATCH").ok().and_then(|s| s.parse().ok()).unwrap_or(2);
         let n = jobs.len() as u64;
         let mut ran = 0u64;
@@ -385,7 +396,7 @@ impl Run {
                     .stderr(std::process::Stdio::null())
                     .spawn();
                 if let Ok(c) = child {
-                    procs.push((*prof, code % 16, c));
+                    procs.push((*prof, if *code >= 1000 { *code } else { code % 16 }, c));
                 }
             }
             for (prof, k, c) in procs {
@@ -419,8 +430,9 @@ impl Run {
             let clause = format!("{}.concurrent_cold_start", self.id);
             let msg = v["message"].as_str().unwrap_or("").to_string();
             let sig = v["sig"].as_str().unwrap_or("").to_string();
-            let id_case = json!({"clause": v["clause"], "case": v["case"], "profile": v["profile"]});
-            return self.violation(&clause, &sig, id_case, &format!("in a fresh process, with 16 threads making their first calls at the same time: {}", msg));
+            let id_case = json!({"clause": v["clause"], "case": v["case"], "profile": v["profile"], "first_call": v["first_call"]});
+            let how = if msg.starts_with("single-threaded") { "in a fresh process: " } else { "in a fresh process, with 48 threads making their first calls at the same time: " };
+            return self.violation(&clause, &sig, id_case, &format!("{}{}", how, msg));
         }
         Ok(())
     }
